@@ -16,6 +16,8 @@
 //     before a statement that consists only of an operation on a shim object (`x.mu.Lock()`,
 //     `defer x.mu.Unlock()`, `once.Do(...)`): the operation is a scheduling point itself, and without
 //     the marker a thread about to lock a held mutex is seen as blocked instead of runnable.
+//     Every exported method of the certificate pools (cms/*_cert_pool.go) additionally starts with
+//     `verifsched.Yield("call <Type>.<Method>")`: a pool call is a scheduling point at all granularities.
 //     The insertion is TEXTUAL at the statement's byte offset, on the same line: comments, //go:embed
 //     directives, formatting and all line numbers of the original file are preserved.
 //  2. The shim + scheduler sources (/verif/internal/vsched, non-test files) are mounted as the virtual
@@ -201,6 +203,20 @@ func readSrc(repo, rel string, patched map[string]string) []byte {
 	return b
 }
 
+func poolFile(rel string) bool {
+	return strings.HasPrefix(rel, "cms/") && strings.HasSuffix(rel, "_cert_pool.go")
+}
+
+func recvName(e ast.Expr) string {
+	if st, ok := e.(*ast.StarExpr); ok {
+		e = st.X
+	}
+	if id, ok := e.(*ast.Ident); ok {
+		return id.Name
+	}
+	return "?"
+}
+
 type insertion struct {
 	off  int
 	text string
@@ -301,10 +317,16 @@ func instrument(rel string, src []byte) ([]byte, int, int, error) {
 			markers++
 		}
 	}
+	entries := 0
 	for _, d := range f.Decls {
 		fd, ok := d.(*ast.FuncDecl)
 		if !ok || fd.Body == nil {
 			continue
+		}
+		// every call of a method of a certificate pool is a scheduling point at ALL granularities
+		if poolFile(rel) && fd.Recv != nil && len(fd.Recv.List) == 1 && ast.IsExported(fd.Name.Name) {
+			ins = append(ins, insertion{off(fd.Body.Lbrace) + 1, fmt.Sprintf(" verifsched.Yield(%q);", "call "+recvName(fd.Recv.List[0].Type)+"."+fd.Name.Name)})
+			entries++
 		}
 		clauseBlocks := map[*ast.BlockStmt]bool{} // bodies of switch / select: their lists hold clauses, not statements
 		ast.Inspect(fd.Body, func(n ast.Node) bool {
@@ -335,7 +357,7 @@ func instrument(rel string, src []byte) ([]byte, int, int, error) {
 		}
 		ins = append(ins, insertion{off(syncSpec.Path.Pos()), text})
 	}
-	if markers > 0 {
+	if markers+entries > 0 {
 		ins = append(ins, insertion{off(f.Name.End()), "; import verifsched " + strconv.Quote(shimPath)})
 	}
 	sort.SliceStable(ins, func(i, j int) bool { return ins[i].off > ins[j].off })
